@@ -19,6 +19,8 @@ CONSTANTS Fns,        \* which functions Next offers
           Hs,         \* the accounts that act as holders / callers
           FreezeAccts, \* accounts the system contract may freeze / unfreeze / wipe
           PauseToks, PauseShards,   \* tokens x shards the system contract may pause / unpause
+          GasPoints,  \* the values of GasProvided offered for every call
+          ExploreRejected, \* TRUE: rejected calls are explored too (totality of the reference operator)
           Bugs,       \* defect switches (self-test)
           Checked     \* predicate names evaluated on every step
 
@@ -94,10 +96,12 @@ Calls ==
      {MkCall(f, a, a, <<TokArg(t), NumArgC(q)>>, 0) : f \in {"ESDTLocalMint", "ESDTLocalBurn"}, a \in {"u0a", "u0b"}, t \in {TokF, TokN}, q \in Amts}
      \cup {MkCall("ESDTBurn", a, "esdtsc", <<TokArg(TokF), NumArgC(q)>>, 0) : a \in {"u0a", "u1a"}, q \in 1..2}
    ELSE {})
-  \cup (IF "nft" \in Fns THEN
-     {MkCall("ESDTNFTCreate", a, a, <<TokArg(TokN), NumArgC(q)>> \o Meta1, 0) : a \in {"u0a", "u0b", "u1a"}, q \in Amts}
-     \cup {MkCall(f, a, a, <<TokArg(TokN), NumArgC(n), NumArgC(q)>>, 0) : f \in {"ESDTNFTAddQuantity", "ESDTNFTBurn"}, a \in {"u0a", "u1a"}, n \in 0..2, q \in 1..2}
-     \cup {MkCall(f, a, a, <<TokArg(TokN), NumArgC(1), RawArg("7a")>>, 0) : f \in {"ESDTNFTAddURI", "ESDTNFTUpdateAttributes"}, a \in {"u0a", "u1a"}}
+  \cup (IF "create" \in Fns THEN
+     {MkCall("ESDTNFTCreate", a, a, <<TokArg(TokN), NumArgC(q)>> \o Meta1, 0) : a \in Hs, q \in Amts}
+     \cup {MkCall(f, a, a, <<TokArg(TokN), NumArgC(n), NumArgC(q)>>, 0) : f \in {"ESDTNFTAddQuantity", "ESDTNFTBurn"}, a \in Hs, n \in 0..2, q \in 1..2}
+   ELSE {})
+  \cup (IF "metaops" \in Fns THEN
+     {MkCall(f, a, a, <<TokArg(TokN), NumArgC(1), RawArg("7a")>>, 0) : f \in {"ESDTNFTAddURI", "ESDTNFTUpdateAttributes"}, a \in Hs}
    ELSE {})
   \cup (IF "flags" \in Fns THEN
      {MkCall(f, "esdtsc", a, <<TokArg(TokF)>>, 0) : f \in {"ESDTFreeze", "ESDTUnFreeze", "ESDTWipe"}, a \in FreezeAccts}
@@ -141,7 +145,7 @@ MkEv(c, r, kind) ==
   [c EXCEPT !.a = kind] @@
   [res |-> IF r.ok THEN "ok" ELSE "err", gr |-> r.gr, fwd |-> SumSeq([i \in 1..Len(r.out) |-> IF r.out[i].tx THEN 0 ELSE r.out[i].gas]),
    out |-> r.out, ret |-> r.ret, retn |-> IF r.ok /\ c.fn = "ESDTNFTCreate" THEN CtrOf(w.acct[c.caller], c.args[1].h) + 1 ELSE 0,
-   err |-> "", gascls |-> "", x |-> <<>>]
+   err |-> "", gascls |-> "", x |-> <<>>, par |-> [ok |-> FALSE, panic |-> FALSE, rcv |-> "", items |-> <<>>, callfn |-> "", callargs |-> <<>>]]
 
 Bounded(w2, h2) ==
   /\ Len(w2.msgs) <= MaxMsgs
@@ -149,7 +153,7 @@ Bounded(w2, h2) ==
   /\ \A a \in Accts(w2) : \A t \in DOMAIN w2.acct[a].ctr : w2.acct[a].ctr[t] <= MaxCtr
   /\ \A a \in Accts(w2) : \A k \in DOMAIN w2.acct[a].esdt : Len(w2.acct[a].esdt[k].meta.uris) <= 2
 
-DirectNames == {"P01_FailKeeps", "P02_Others", "P02_NoOverdraft", "P03_Authority", "P04_Immobile", "P04_NoCreditWhilePaused", "P04_FlagOnly",
+DirectNames == {"P01_DeliveryNominal", "P16_Price", "P10_RoundTrip", "P10_Accepted", "P11_ShapeVerdict", "P01_FailKeeps", "P02_Others", "P02_NoOverdraft", "P03_Authority", "P04_Immobile", "P04_NoCreditWhilePaused", "P04_FlagOnly",
                 "P05_Protected", "P05_KVExact", "P05_Frame", "P06_NoGasCreated", "P07_ReturnedNonce", "P07_CtrOnlyByCreate", "P08_Create",
                 "P08_OnlyUriAttr", "P08_WrongHash", "P09_Admissible", "P09_Rejected"}
 StepPred(name, wp, e, w2, hp, r) ==
@@ -162,6 +166,9 @@ StepPred(name, wp, e, w2, hp, r) ==
     [] name = "P07_CtrOnlyByCreate" -> P07_CtrOnlyByCreate(wp, e, w2, hp, r) [] name = "P08_Create" -> P08_Create(wp, e, w2, hp, r)
     [] name = "P08_OnlyUriAttr" -> P08_OnlyUriAttr(wp, e, w2, hp, r) [] name = "P08_WrongHash" -> P08_WrongHash(wp, e, w2, hp, r)
     [] name = "P09_Admissible" -> P09_Admissible(wp, e, w2, hp, r) [] name = "P09_Rejected" -> P09_Rejected(wp, e, w2, hp, r)
+    [] name = "P16_Price" -> P16_Price(wp, e, w2, hp, r) [] name = "P10_RoundTrip" -> P10_RoundTrip(wp, e, w2, hp, r)
+    [] name = "P10_Accepted" -> P10_Accepted(wp, e, w2, hp, r) [] name = "P11_ShapeVerdict" -> P11_ShapeVerdict(wp, e, w2, hp, r)
+    [] name = "P01_DeliveryNominal" -> P01_DeliveryNominal(wp, e, w2, hp, r)
     [] OTHER -> TRUE
 
 Finish(c, r, kind) ==
@@ -171,7 +178,15 @@ Finish(c, r, kind) ==
   /\ w' = r.w /\ h' = h2 /\ ev' = [a |-> e.a, fn |-> e.fn, caller |-> e.caller, rcpt |-> e.rcpt, res |-> e.res] /\ cfg' = cfg
   /\ viol' = {n \in DirectNames \cap Checked : ~StepPred(n, w, e, r.w, h, r)}
 
-DoExec == \E c \in Calls : Pre(c) /\ Disciplined(c) /\ LET r == Exec(w, c) IN ~r.unk /\ r.ok /\ Finish([c EXCEPT !.snd = SndPresent(c), !.dst = DstPresent(c)], r, "exec")
+DoExec == \E c0 \in Calls, g \in GasPoints :
+            LET c == [c0 EXCEPT !.gas = g] IN
+            (ExploreRejected \/ Pre(c)) /\ Disciplined(c) /\
+            LET r == Exec(w, c) IN ~r.unk /\ (ExploreRejected \/ r.ok) /\ Finish([c EXCEPT !.snd = SndPresent(c), !.dst = DstPresent(c)], r, "exec")
+
+\* the node offers a new gas schedule: a complete one is adopted, an incomplete one is ignored
+Sched1 == [x \in DOMAIN Sched0 |-> IF SubSeq(x, 1, 1) = "B" THEN 7 ELSE 2]
+DoSched == "sched" \in Fns /\ \E sc \in {Sched0, Sched1} : sc # w.sched /\ w' = [w EXCEPT !.sched = sc] /\ UNCHANGED <<cfg, h>> /\ viol' = {}
+              /\ ev' = [a |-> "sched", fn |-> "", caller |-> "", rcpt |-> "", res |-> "ok"]
 
 DoDeliver ==
   \E i \in 1..Len(w.msgs) : ~w.msgs[i].dead /\
@@ -181,7 +196,7 @@ DoDeliver ==
      ~r.unk /\ Finish(c, r, "deliver")
 
 Init == cfg = MCCfg /\ w = W0 /\ h = [supply |-> (TokF :> 2), maxn |-> <<>>, made |-> {}, flagged |-> {}] /\ ev = [a |-> "init", fn |-> "", caller |-> "", rcpt |-> "", res |-> "ok"] /\ viol = {}
-Next == DoExec \/ DoDeliver
+Next == DoExec \/ DoDeliver \/ DoSched
 Spec == Init /\ [][Next]_vars
 
 ---------------------------------------------------------------------------
